@@ -103,62 +103,80 @@ func c02ResList(cpuMilli, mem int64) corev1.ResourceList {
 	return corev1.ResourceList{corev1.ResourceCPU: createQuantity(cpuMilli, corev1.ResourceCPU), corev1.ResourceMemory: createQuantity(mem, corev1.ResourceMemory)}
 }
 
-// c02RunCalculator drives RuntimeQuotaCalculator through its real setters (the ones
-// GroupQuotaManager uses): two independent dimensions (cpu in milli-units, memory), the request
-// limited by max inside koordinator (getLimitRequestNoLock). maxSlack[d][i] >= 0 is added to
-// max(request,min) to form max unless capReq[i] (then max < request and the effective request is max).
+// c02RunCalculator drives RuntimeQuotaCalculator through its real setters, following the protocol
+// GroupQuotaManager follows: a quota is registered with max, then min, then shared weight
+// (updateQuotaInternalNoLock); afterwards a field of the QuotaInfo only ever changes together with
+// the matching calculator call (request / guarantee behind their needUpdate… guard). Two independent
+// dimensions (cpu in milli-units, memory); the request is limited by max inside koordinator
+// (getLimitRequestNoLock). max = max(request,min) + MaxOver (negative when the request is cut).
+type c02CalcOp struct {
+	Kind  string // max | min | weight | request | guarantee | refresh | total
+	Q     int
+	Final bool // final value of the case, or some other value that a later op overwrites
+}
+
 type c02CalcPlan struct {
-	Order   []int    // order in which quotas are registered
-	Steps   []string // order of the setter calls per quota (permutation of max,min,weight,request,guarantee)
-	Twice   []bool   // quota i first receives other values, then the final ones
-	MaxOver [2][]int64
+	Order        []int  // registration order
+	GarbageFirst []bool // quota i is registered with other max/min/weight values first
+	Ops          []c02CalcOp
+	MaxOver      [2][]int64
 }
 
 func c02RunCalculator(dims [2][]c02Sib, totals [2]int64, plan c02CalcPlan) [2][]int64 {
 	n := len(dims[0])
 	calc := NewRuntimeQuotaCalculator("c02-parent")
 	infos := make([]*QuotaInfo, n)
-	apply := func(qi *QuotaInfo, i int, final bool) {
-		for _, st := range plan.Steps {
-			v := func(x0, x1 int64) corev1.ResourceList {
-				if !final {
-					return c02ResList(x0/2+1, x1/3+2)
-				}
-				return c02ResList(x0, x1)
+	set := func(i int, kind string, final bool) {
+		qi := infos[i]
+		v := func(x0, x1 int64) corev1.ResourceList {
+			if !final {
+				return c02ResList(x0/2+1, x1/3+2)
 			}
-			a, b := dims[0][i], dims[1][i]
-			switch st {
-			case "max":
-				qi.setMaxQuotaNoLock(v(c02Max64(a.Req, a.Min)+plan.MaxOver[0][i], c02Max64(b.Req, b.Min)+plan.MaxOver[1][i]))
-				calc.updateOneGroupMaxQuota(qi)
-			case "min":
-				qi.setAutoScaleMinQuotaNoLock(v(a.Min, b.Min))
-				calc.updateOneGroupMinQuota(qi)
-			case "weight":
-				qi.setSharedWeightNoLock(v(a.Weight, b.Weight))
-				calc.updateOneGroupSharedWeight(qi)
-			case "request":
-				qi.CalculateInfo.Request = v(a.Req, b.Req)
-				if calc.needUpdateOneGroupRequest(qi) {
-					calc.updateOneGroupRequest(qi)
-				}
-			case "guarantee":
-				qi.CalculateInfo.Guaranteed = v(a.Guar, b.Guar)
-				if calc.needUpdateOneGroupGuaranteed(qi) {
-					calc.updateOneGroupGuaranteed(qi)
-				}
+			return c02ResList(x0, x1)
+		}
+		a, b := dims[0][i], dims[1][i]
+		switch kind {
+		case "max":
+			qi.setMaxQuotaNoLock(v(c02Max64(a.Req, a.Min)+plan.MaxOver[0][i], c02Max64(b.Req, b.Min)+plan.MaxOver[1][i]))
+			calc.updateOneGroupMaxQuota(qi)
+		case "min":
+			qi.setAutoScaleMinQuotaNoLock(v(a.Min, b.Min))
+			calc.updateOneGroupMinQuota(qi)
+		case "weight":
+			qi.setSharedWeightNoLock(v(a.Weight, b.Weight))
+			calc.updateOneGroupSharedWeight(qi)
+		case "request":
+			qi.CalculateInfo.Request = v(a.Req, b.Req)
+			if calc.needUpdateOneGroupRequest(qi) {
+				calc.updateOneGroupRequest(qi)
+			}
+		case "guarantee":
+			qi.CalculateInfo.Guaranteed = v(a.Guar, b.Guar)
+			if calc.needUpdateOneGroupGuaranteed(qi) {
+				calc.updateOneGroupGuaranteed(qi)
 			}
 		}
 	}
 	for _, i := range plan.Order {
-		qi := NewQuotaInfo(false, dims[0][i].Lent, dims[0][i].Name, "c02-parent")
-		infos[i] = qi
-		if plan.Twice[i] {
-			apply(qi, i, false)
-		}
-		apply(qi, i, true)
+		infos[i] = NewQuotaInfo(false, dims[0][i].Lent, dims[0][i].Name, "c02-parent")
+		set(i, "max", !plan.GarbageFirst[i])
+		set(i, "min", !plan.GarbageFirst[i])
+		set(i, "weight", !plan.GarbageFirst[i])
 	}
-	calc.setClusterTotalResource(c02ResList(totals[0], totals[1]))
+	for _, op := range plan.Ops {
+		switch op.Kind {
+		case "refresh":
+			calc.updateOneGroupRuntimeQuota(infos[op.Q])
+		case "total":
+			if op.Final {
+				calc.setClusterTotalResource(c02ResList(totals[0], totals[1]))
+			} else {
+				calc.setClusterTotalResource(c02ResList(totals[0]/2+3, totals[1]+5))
+			}
+		default:
+			set(op.Q, op.Kind, op.Final)
+		}
+	}
 	var out [2][]int64
 	out[0], out[1] = make([]int64, n), make([]int64, n)
 	for _, i := range plan.Order {
@@ -169,6 +187,37 @@ func c02RunCalculator(dims [2][]c02Sib, totals [2]int64, plan c02CalcPlan) [2][]
 		out[1][i] = getQuantityValue(mem, corev1.ResourceMemory)
 	}
 	return out
+}
+
+// c02GenCalcOps: first a shuffled batch of non-final changes, refreshes and a wrong total, then a shuffled batch
+// with every final value, the final total and more refreshes (so that a runtime computed before the last input
+// change must be recomputed by the version stamp).
+func c02GenCalcOps(t *rapid.T, n int, garbageFirst []bool) []c02CalcOp {
+	var a, b []c02CalcOp
+	for i := 0; i < n; i++ {
+		if rapid.Bool().Draw(t, "earlyReq") {
+			a = append(a, c02CalcOp{"request", i, false})
+		}
+		if rapid.IntRange(0, 2).Draw(t, "earlyGuar") == 0 {
+			a = append(a, c02CalcOp{"guarantee", i, false})
+		}
+		if garbageFirst[i] {
+			b = append(b, c02CalcOp{"max", i, true}, c02CalcOp{"min", i, true}, c02CalcOp{"weight", i, true})
+		}
+		b = append(b, c02CalcOp{"request", i, true}, c02CalcOp{"guarantee", i, true})
+	}
+	if rapid.Bool().Draw(t, "earlyTotal") {
+		a = append(a, c02CalcOp{"total", 0, false})
+	}
+	for k := rapid.IntRange(0, 2).Draw(t, "earlyRefreshes"); k > 0; k-- {
+		a = append(a, c02CalcOp{"refresh", rapid.IntRange(0, n-1).Draw(t, "earlyRefreshQ"), false})
+	}
+	b = append(b, c02CalcOp{"total", 0, true})
+	for k := rapid.IntRange(0, 3).Draw(t, "lateRefreshes"); k > 0; k-- {
+		b = append(b, c02CalcOp{"refresh", rapid.IntRange(0, n-1).Draw(t, "lateRefreshQ"), false})
+	}
+	ops := append([]c02CalcOp(nil), rapid.Permutation(a).Draw(t, "opsA")...)
+	return append(ops, rapid.Permutation(b).Draw(t, "opsB")...)
 }
 
 // ------------------------------------------------------------------------------------------------
@@ -276,9 +325,8 @@ func TestVerifC02Flat(t *testing.T) {
 		dims[0], totals[0], scales[0] = c02GenDim(t, names, lent, "cpu")
 		dims[1], totals[1], scales[1] = c02GenDim(t, names, lent, "mem")
 		plan := c02CalcPlan{
-			Order: rapid.Permutation(c02Identity(n)).Draw(t, "order"),
-			Steps: rapid.Permutation([]string{"max", "min", "weight", "request", "guarantee"}).Draw(t, "steps"),
-			Twice: rapid.SliceOfN(rapid.Bool(), n, n).Draw(t, "twice"),
+			Order:        rapid.Permutation(c02Identity(n)).Draw(t, "order"),
+			GarbageFirst: rapid.SliceOfN(rapid.Bool(), n, n).Draw(t, "garbageFirst"),
 		}
 		// effective siblings as koordinator must see them: request limited by max
 		var effDims [2][]c02Sib
@@ -299,6 +347,7 @@ func TestVerifC02Flat(t *testing.T) {
 				}
 			}
 		}
+		plan.Ops = c02GenCalcOps(t, n, plan.GarbageFirst)
 		out := c02RunCalculator(dims, totals, plan)
 		c.Class("path:calculator")
 		c.ClassIf(capped, "request-limited-by-max")
@@ -403,7 +452,7 @@ func TestVerifC02Exhaustive(t *testing.T) {
 		return s
 	}
 	count := 0
-	run := func(sibs []c02Sib) bool {
+	run := func(sibs []c02Sib, ki, kj, kk int) {
 		for total := int64(0); total <= 13; total++ {
 			c := rec.Begin()
 			qt := NewQuotaTree()
@@ -447,21 +496,18 @@ func TestVerifC02Exhaustive(t *testing.T) {
 			c.ClassIf(rem, "nonzero-remainder")
 			c.ClassIf(posB >= 2, "two-or-more-weighted-borrowers")
 			if posB >= 2 && left > 0 && rem {
-				c.NonTrivial(fmt.Sprint(sibs), total)
+				c.NonTrivial(ki, kj, kk, total)
 			}
 			if count%100003 == 1 {
 				c.Sample(map[string]any{"siblings": append([]c02Sib(nil), sibs...), "total": total, "runtime": rt})
 			}
 			if sig := c02CheckSmall(sibs, total, rt); sig != "" {
 				_, msg := c02CheckBig(sibs, total, rt)
-				if !c.Violation(t, sig, "%s; %s", msg, c02Describe(sibs, total, rt)) {
-					c.End()
-					return false
-				}
+				// returns only for a known finding (case abandoned); otherwise fails the test here
+				c.Violation(t, sig, "%s; %s", msg, c02Describe(sibs, total, rt))
 			}
 			c.End()
 		}
-		return true
 	}
 	rot := 0
 	for i := range D {
@@ -469,19 +515,13 @@ func TestVerifC02Exhaustive(t *testing.T) {
 			continue
 		}
 		rot++
-		if !run([]c02Sib{mk(D[i], 0, rot)}) {
-			return
-		}
+		run([]c02Sib{mk(D[i], 0, rot)}, i, -1, -1)
 		for j := i; j < len(D); j++ {
 			rot++
-			if !run([]c02Sib{mk(D[i], 0, rot), mk(D[j], 1, rot/5)}) {
-				return
-			}
+			run([]c02Sib{mk(D[i], 0, rot), mk(D[j], 1, rot/5)}, i, j, -1)
 			for k := j; k < len(D); k++ {
 				rot++
-				if !run([]c02Sib{mk(D[i], 0, rot), mk(D[j], 1, rot/5), mk(D[k], 2, rot/25)}) {
-					return
-				}
+				run([]c02Sib{mk(D[i], 0, rot), mk(D[j], 1, rot/5), mk(D[k], 2, rot/25)}, i, j, k)
 			}
 		}
 	}
